@@ -40,12 +40,16 @@ def convertNumeric (v : Num) (t : NT) : Res Num :=
     | none => .rangeErr
   | .f64 =>
     match v with
-    | .f64 x => .ok (.f64 x)
-    | _ => let y := asF64 v; if sameNumber v y then .ok (.f64 y) else .rangeErr
+    | .f64 x | .f32 x => .ok (.f64 x)          -- every float32 is a float64
+    | .int _ i => let y := ofInt i; if sameNumber v y then .ok (.f64 y) else .rangeErr
   | .f32 =>
     match v with
     | .f32 x => .ok (.f32 x)
-    | _ => let y := toF32 (asF64 v); if sameNumber v y then .ok (.f32 y) else .rangeErr
+    | .f64 x =>
+      -- finite magnitudes beyond MaxFloat32 are not float32 values; otherwise the nearest float32 must be x itself
+      if lt maxF32 (abs x) && !isInf x then .rangeErr
+      else let y := toF32 x; if sameNumber v y then .ok (.f32 y) else .rangeErr
+    | .int _ i => let y := toF32 (ofInt i); if sameNumber v y then .ok (.f32 y) else .rangeErr
 
 /-- the property text for structured arguments: built element-wise from exact numeric conversions; a number
     given for a Go `string` parameter arrives as its JavaScript ToString; an array hole is `undefined` -/
